@@ -27,7 +27,8 @@ RULE = ("argv grammar over the five sub-commands and the global options with val
         "chars, bad checksum, public keys, all 12 prefixes, non-master depth; -f path states: new, existing, directory, symlink "
         "to file, dangling symlink, missing parent, file-as-parent; option order permutations, duplicated options, missing "
         "command, unknown options); each argv run in-process (audit hook + probes) and a sample as real subprocesses (directory "
-        "diff, some under strace); distinct = distinct (monitor, case) digests")
+        "diff, some under strace); distinct = distinct (monitor, case) digests"
+        " EXTENSIONS: + decoy sibling files (target.tmp, target~, .target.swp ...) that must survive, symlinks with relative targets named from another directory / chained / to the parent directory, accounts equal to meaningful numbers, values wrapping modulo 2^32, reversed straddling intervals")
 LEVEL_TEXT = ("Outcome-based monitor on real CLI executions: a non-zero exit must come with no wallet data on stdout and no "
               "file created or modified (directory diff + audit 'open' events + strace on a sample); exit 0 must print/save JSON "
               "identical to what the library API returns for the same secret/network/account/interval (through an independent "
@@ -62,6 +63,14 @@ def prepare_dir(d, fcase):
     kind = fcase["kind"]
     os.makedirs(os.path.join(d, "sub"), exist_ok=True)
     open(os.path.join(d, "keep.txt"), "w").write("precious\n")
+    # DECOY siblings: names an implementation might pick for a temporary / backup / lock file next to the target - they are
+    # somebody's files and must survive whatever the command does
+    for base in ("wallet.json", os.path.join("sub", "w.json"), "abs.json"):
+        for pat in ("%s.tmp", "%s~", "%s.bak", "%s.new", "%s.part", "%s.lock", "%s.swp", "%s.old", "%s.1", ".%s.tmp", ".%s.swp", "%s.temp", "tmp_%s", "%s.orig"):
+            dn, bn = os.path.split(base)
+            open(os.path.join(d, dn, pat % bn), "w").write("decoy of %s\n" % base)
+    for name in ("tmp", "temp", ".tmp", "wallet", "wallet.json.d"):
+        open(os.path.join(d, name), "w").write("decoy\n")
     if kind == "none":
         return None
     if kind == "new":
